@@ -466,6 +466,11 @@ func (st *renderStyle) quote(f string, s string) string {
 var wsKinds = []struct{ name, text string }{
 	{"ws-space", " "}, {"ws-newline", "\n"}, {"ws-block-comment", " /* c */ "}, {"ws-line-comment", " // lc\n"},
 	{"ws-tab", "\t"}, {"ws-doc-comment", "/** doc */"},
+	// comment terminators and contents that a hand-written comment scanner gets wrong
+	{"ws-comment-empty", "/**/"}, {"ws-comment-stars", "/***/"}, {"ws-comment-star-run-end", "/* x **/"},
+	{"ws-comment-banner", "/**** banner ****/"}, {"ws-comment-dashes-stars", "/*----**/"},
+	{"ws-comment-slashes-inside", "/* a / b // c */"}, {"ws-line-comment-with-block", " // x /* y */\n"},
+	{"ws-comment-multiline", "/*\n * doc\n */"}, {"ws-crlf", "\r\n"}, {"ws-comment-quote-inside", "/* it's \"q\" */"},
 }
 
 // ws: optional white space / comment between two tokens.
@@ -482,7 +487,7 @@ func (st *renderStyle) ws() string {
 	if !st.random() {
 		return ""
 	}
-	k := int(st.draw("ws") % 12)
+	k := int(st.draw("ws") % uint64(2*len(wsKinds)))
 	if k < len(wsKinds) && !st.Off[wsKinds[k].name] {
 		st.note(wsKinds[k].name)
 		return wsKinds[k].text
